@@ -159,6 +159,10 @@ def injector(w, target, workload, src='src'):
         d = t - env.now
         if d > 0:
             yield env.timeout(d)
+        # optional 6th field: zero-delay hops before the hand-over (moves the arrival later among the actions of its
+        # instant, e.g. behind a transmission end that is due at the same time)
+        for _ in range(int(it[5]) if len(it) > 5 and it[5] else 0):
+            yield env.timeout(0)
         n += 1
         if len(it) > 4 and it[4] is not None and made:
             # optional 5th field: hand in the very same Packet object again (what a retransmitting sender does)
